@@ -62,6 +62,28 @@ theorem trySeq_list {kind vc} {ds xs : List Val} {x : Val} (hm : mapMO (tryC E v
     simp only [tryC, Val.isSeq, Val.seqItems, Bool.not_true, Bool.false_eq_true, if_false, hm,
       Outcome.bind_ok, hc, swallow]
 
+/-- on a value that is not an instance of a scalar subclass the serialiser a container converter picks
+for an element is the element converter's own (for `Any`: both are the untyped serialiser) -/
+theorem anyOr_eq (c : Conv) (x : Val) (h : c = .any → x.isData = true) :
+    anyOr E dyn c (intoC E dyn c) x = intoC E dyn c x := by
+  cases c <;> try rfl
+  have hx := h rfl
+  cases x <;> first | rfl | (simp [Val.isData] at hx)
+
+/-- `intoC` on a sequence converter, on the payload of a sequence value -/
+theorem intoC_seq_list (kind vc) (xs : List Val) :
+    intoC E dyn (.seq kind vc) (.list xs) =
+      ((exMapM (anyOr E dyn vc (intoC E dyn vc)) xs).map fun ys => if kind == "tuple" then .tuple ys else .list ys) ∧
+    intoC E dyn (.seq kind vc) (.tuple xs) =
+      ((exMapM (anyOr E dyn vc (intoC E dyn vc)) xs).map fun ys => if kind == "tuple" then .tuple ys else .list ys) ∧
+    intoC E dyn (.seq kind vc) (.deque xs) =
+      ((exMapM (anyOr E dyn vc (intoC E dyn vc)) xs).map fun ys => if kind == "tuple" then .tuple ys else .list ys) ∧
+    intoC E dyn (.seq kind vc) (.set xs) =
+      ((exMapM (anyOr E dyn vc (intoC E dyn vc)) xs).map fun ys => if kind == "tuple" then .tuple ys else .list ys) ∧
+    intoC E dyn (.seq kind vc) (.frozenset xs) =
+      (exMapM (anyOr E dyn vc (intoC E dyn vc)) xs).map fun ys => if kind == "tuple" then .tuple ys else .list ys :=
+  ⟨rfl, rfl, rfl, rfl, rfl⟩
+
 theorem rt_seq {kind vc} (hk : seqKinds.contains kind = true) (h : RTGood E dyn N vc) :
     RTGood E dyn N (.seq kind vc) := by
   rintro x hx ⟨v, hv, ht⟩ hok
@@ -70,38 +92,47 @@ theorem rt_seq {kind vc} (hk : seqKinds.contains kind = true) (h : RTGood E dyn 
     obtain ⟨u, hu, hf⟩ := mapMO_ok_mem hm y hy
     exact ⟨u, Val.isData_seqItems hv u hu, hf⟩
   simp only [RTOk] at hok
-  have core : (∀ y ∈ x.payload, y ∈ xs) → ∃ ds, exMapM (intoC E dyn vc) x.payload = .ok ds ∧
+  have core : (∀ y ∈ x.payload, y ∈ xs) → ∃ ds, exMapM (anyOr E dyn vc (intoC E dyn vc)) x.payload = .ok ds ∧
       (∀ d ∈ ds, d.isData = true) ∧ mapMO (tryC E vc) ds = .ok x.payload := by
     intro hpay
     obtain ⟨ds, h1, h2, h3, _⟩ := rt_list (f := tryC E vc) (g := intoC E dyn vc)
       (Q := fun d => d.isData = true) x.payload
       (fun y hy => h y (Nat.lt_trans (Val.depth_payload hy) hx) (helem y (hpay y hy)) (hok y hy))
-    exact ⟨ds, h1, h2, h3⟩
+    refine ⟨ds, ?_, h2, h3⟩
+    rw [← h1]
+    apply exMapM_congr
+    intro y hy
+    apply anyOr_eq
+    intro hvc
+    subst hvc
+    obtain ⟨u, hu, hf⟩ := helem y (hpay y hy)
+    simp only [tryC, Outcome.ok.injEq] at hf
+    rw [← hf]; exact hu
   rcases seqCtor_cases hk hctor with ⟨rfl, rfl⟩ | ⟨rfl, rfl⟩ | ⟨rfl, rfl⟩ | ⟨rfl, rfl, hh⟩ | ⟨rfl, rfl, hh⟩
   · obtain ⟨ds, h1, h2, h3⟩ := core (fun y hy => hy)
     simp only [Val.payload] at h1 h3
     refine ⟨.list ds, ?_, Val.isData_list h2, (trySeq_list h3 hctor).1⟩
-    simp [intoC, h1, Except.map]
+    simp [intoC_seq_list, h1, Except.map]
   · obtain ⟨ds, h1, h2, h3⟩ := core (fun y hy => hy)
     simp only [Val.payload] at h1 h3
     refine ⟨.tuple ds, ?_, Val.isData_tuple h2, (trySeq_list h3 hctor).2⟩
-    simp [intoC, h1, Except.map]
+    simp [intoC_seq_list, h1, Except.map]
   · obtain ⟨ds, h1, h2, h3⟩ := core (fun y hy => hy)
     simp only [Val.payload] at h1 h3
     refine ⟨.list ds, ?_, Val.isData_list h2, (trySeq_list h3 hctor).1⟩
-    simp [intoC, h1, Except.map]
+    simp [intoC_seq_list, h1, Except.map]
   · obtain ⟨ds, h1, h2, h3⟩ := core (fun y hy => Val.dedupPy_mem hy)
     simp only [Val.payload] at h1 h3
     have hc2 := (seqCtor_set (xs := Val.dedupPy xs) (fun y hy => hh y (Val.dedupPy_mem hy))).1
     rw [Val.dedupPy_idem] at hc2
     refine ⟨.list ds, ?_, Val.isData_list h2, (trySeq_list h3 hc2).1⟩
-    simp [intoC, h1, Except.map]
+    simp [intoC_seq_list, h1, Except.map]
   · obtain ⟨ds, h1, h2, h3⟩ := core (fun y hy => Val.dedupPy_mem hy)
     simp only [Val.payload] at h1 h3
     have hc2 := (seqCtor_set (xs := Val.dedupPy xs) (fun y hy => hh y (Val.dedupPy_mem hy))).2
     rw [Val.dedupPy_idem] at hc2
     refine ⟨.list ds, ?_, Val.isData_list h2, (trySeq_list h3 hc2).1⟩
-    simp [intoC, h1, Except.map]
+    simp [intoC_seq_list, h1, Except.map]
 
 /-! ## Tuples -/
 
@@ -223,14 +254,6 @@ theorem intoC_dict (kind k vc) (v : Val) :
         | .error e => .error e
         | .ok kvs => (buildDict kvs).map .dict := by
   simp only [intoC]; rfl
-
-/-- on a value that is not an instance of a scalar subclass the serialiser `DictConverter.into_data` picks
-for an element is the element converter's own (for `Any`: both are the untyped serialiser) -/
-theorem anyOr_eq (c : Conv) (x : Val) (h : c = .any → x.isData = true) :
-    anyOr E dyn c (intoC E dyn c) x = intoC E dyn c x := by
-  cases c <;> try rfl
-  have hx := h rfl
-  cases x <;> first | rfl | (simp [Val.isData] at hx)
 
 theorem buildDict_ok_inv {kvs D : List (Val × Val)} (h : buildDict kvs = .ok D) :
     (∀ p ∈ kvs, p.1.hashable = true) ∧ D = Val.dictOfPairs kvs := by
